@@ -1,4 +1,5 @@
 import WalrusVerif.Model.Recover
+import WalrusVerif.Lemmas.LayoutLemmas
 import WalrusVerif.Lemmas.AEngStepR
 import WalrusVerif.Props.C01
 /-!
@@ -259,6 +260,556 @@ example : (scanFile smallCfg 0 cellsEx 5 0 { trk := {}, inst := { dir := 0, mode
       [(⟨1, false⟩, [2]), (⟨0, false⟩, [3])] ∧
     (scanFile smallCfg 0 cellsEx 5 0 { trk := {}, inst := { dir := 0, mode := .strict } }).nextId = 3 := by
   decide +kernel
+
+/-! ### the write side: friendly appends produce a well-formed file -/
+
+/-- the entries `es` of topic `t` lie back to back from offset `o` -/
+def LaidT (c : Cfg) (cells : List Cell) (t : Topic) : Nat → List Pay → Prop
+  | _, [] => True
+  | o, p :: r => cellAt cells o = some ⟨o, t, p⟩ ∧ LaidT c cells t (o + c.metaSz + p.len) r
+
+theorem laidT_laid (c : Cfg) (cells : List Cell) (t : Topic) (es : List Pay) :
+    ∀ o, LaidT c cells t o es → Laid c cells o es := by
+  induction es with
+  | nil => intro o _; trivial
+  | cons p r ih => intro o h; exact ⟨⟨_, h.1, rfl⟩, ih _ h.2⟩
+
+theorem laidT_mono (c : Cfg) (cells : List Cell) (x : Cell) (t : Topic) (es : List Pay) :
+    ∀ o, LaidT c cells t o es → LaidT c (cells ++ [x]) t o es := by
+  induction es with
+  | nil => intro o _; trivial
+  | cons p r ih => intro o h; exact ⟨cellAt_append_some _ _ _ _ h.1, ih _ h.2⟩
+
+theorem totalRaw_append (c : Cfg) (a b : List Pay) : totalRaw c (a ++ b) = totalRaw c a + totalRaw c b := by
+  simp [totalRaw]
+
+theorem laidT_snoc (c : Cfg) (cells : List Cell) (t : Topic) (es : List Pay) (p : Pay) :
+    ∀ o, LaidT c cells t o es → cellAt cells (o + totalRaw c es) = some ⟨o + totalRaw c es, t, p⟩ →
+      LaidT c cells t o (es ++ [p]) := by
+  induction es with
+  | nil => intro o _ h; simp only [totalRaw, List.map_nil, List.sum_nil, Nat.add_zero] at h; exact ⟨h, trivial⟩
+  | cons q r ih =>
+    intro o h hc
+    refine ⟨h.1, ih _ h.2 ?_⟩
+    have : totalRaw c (q :: r) = c.metaSz + q.len + totalRaw c r := by simp [totalRaw]
+    rw [this] at hc
+    rw [show o + c.metaSz + q.len + totalRaw c r = o + (c.metaSz + q.len + totalRaw c r) by omega]
+    exact hc
+
+/-- blocks of one unit each, back to back from offset `o` -/
+def LayBlocks (c : Cfg) (cells : List Cell) : Nat → List LBlock → Prop
+  | _, [] => True
+  | o, b :: r => b.off = o ∧ LaidT c cells b.topic o b.es ∧ totalRaw c b.es ≤ c.blockSize ∧
+      LayBlocks c cells (o + c.blockSize) r
+
+/-- every cell of the file is an entry of one of the blocks -/
+def NoStray (c : Cfg) (cells : List Cell) (L : List LBlock) : Prop :=
+  ∀ x ∈ cells, ∃ b ∈ L, b.off ≤ x.off ∧ x.off + c.metaSz + x.pay.len ≤ b.off + totalRaw c b.es
+
+theorem layBlocks_mono (c : Cfg) (cells : List Cell) (x : Cell) (L : List LBlock) :
+    ∀ o, LayBlocks c cells o L → LayBlocks c (cells ++ [x]) o L := by
+  induction L with
+  | nil => intro o _; trivial
+  | cons b r ih => intro o h; exact ⟨h.1, laidT_mono c cells x _ _ _ h.2.1, h.2.2.1, ih _ h.2.2.2⟩
+
+theorem layBlocks_off (c : Cfg) (cells : List Cell) (L : List LBlock) :
+    ∀ o, LayBlocks c cells o L → ∀ b ∈ L, o ≤ b.off ∧ b.off + c.blockSize ≤ o + L.length * c.blockSize ∧
+      totalRaw c b.es ≤ c.blockSize := by
+  induction L with
+  | nil => intro o _ b hb; simp at hb
+  | cons a r ih =>
+    intro o h b hb
+    rw [List.mem_cons] at hb
+    rcases hb with e | hb
+    · subst e
+      refine ⟨by rw [h.1]; exact Nat.le_refl _, ?_, h.2.2.1⟩
+      rw [h.1, List.length_cons, Nat.succ_mul]; omega
+    · have := ih _ h.2.2.2 b hb
+      refine ⟨by omega, ?_, this.2.2⟩
+      rw [List.length_cons, Nat.succ_mul]; omega
+
+theorem layBlocks_append (c : Cfg) (cells : List Cell) (A B : List LBlock) :
+    ∀ o, LayBlocks c cells o (A ++ B) ↔ LayBlocks c cells o A ∧ LayBlocks c cells (o + A.length * c.blockSize) B := by
+  induction A with
+  | nil => intro o; simp [LayBlocks]
+  | cons a r ih =>
+    intro o
+    simp only [List.cons_append, LayBlocks, List.length_cons]
+    rw [ih]
+    rw [show o + c.blockSize + r.length * c.blockSize = o + (r.length + 1) * c.blockSize by rw [Nat.succ_mul]; omega]
+    constructor
+    · intro ⟨h1, h2, h3, h4, h5⟩; exact ⟨⟨h1, h2, h3, h4⟩, h5⟩
+    · intro ⟨⟨h1, h2, h3, h4⟩, h5⟩; exact ⟨h1, h2, h3, h4, h5⟩
+
+theorem mem_of_cellAt (cells : List Cell) (o : Nat) (y : Cell) (h : cellAt cells o = some y) : y ∈ cells ∧ y.off = o := by
+  unfold cellAt at h
+  exact ⟨List.mem_of_find?_eq_some h, by simpa using List.find?_some h⟩
+
+/-- a new block at the end of the allocated region: nothing is overwritten, the layout grows by one block -/
+theorem layout_new_block (c : Cfg) (hm : 0 < c.metaSz) (cells : List Cell) (L : List LBlock) (t : Topic) (p : Pay)
+    (hl : LayBlocks c cells 0 L) (hs : NoStray c cells L) (hfit : c.metaSz + p.len ≤ c.blockSize) :
+    let o := L.length * c.blockSize
+    clobber c cells o (o + c.metaSz + p.len) = cells ∧
+    LayBlocks c (cells ++ [⟨o, t, p⟩]) 0 (L ++ [⟨o, t, p, []⟩]) ∧
+    NoStray c (cells ++ [⟨o, t, p⟩]) (L ++ [⟨o, t, p, []⟩]) := by
+  intro o
+  have hbelow : ∀ y ∈ cells, y.off + c.metaSz + y.pay.len ≤ o := by
+    intro y hy
+    obtain ⟨b, hb, _, h2⟩ := hs y hy
+    have := layBlocks_off c cells L 0 hl b hb
+    omega
+  have hnone : cellAt cells o = none := by
+    cases hc : cellAt cells o with
+    | none => rfl
+    | some y =>
+      obtain ⟨hy, ho⟩ := mem_of_cellAt _ _ _ hc
+      have := hbelow y hy
+      omega
+  refine ⟨?_, ?_, ?_⟩
+  · apply clobber_eq_self
+    intro y hy ⟨_, h2⟩
+    have := hbelow y hy
+    unfold Cell.stop at h2
+    omega
+  · rw [layBlocks_append]
+    refine ⟨layBlocks_mono c cells _ L 0 hl, ?_⟩
+    simp only [Nat.zero_add, LayBlocks, LBlock.es, LaidT, and_true]
+    refine ⟨rfl, ?_, ?_⟩
+    · rw [cellAt_append_none _ _ _ hnone]; simp [o]
+    · simp [totalRaw]; omega
+  · intro y hy
+    rw [List.mem_append] at hy
+    rcases hy with hy | hy
+    · obtain ⟨b, hb, h1, h2⟩ := hs y hy
+      exact ⟨b, List.mem_append_left _ hb, h1, h2⟩
+    · simp only [List.mem_singleton] at hy
+      subst hy
+      refine ⟨⟨o, t, p, []⟩, List.mem_append_right _ (List.mem_singleton.mpr rfl), Nat.le_refl _, ?_⟩
+      simp [totalRaw, LBlock.es]; omega
+
+/-- one more entry behind the entries of a block: nothing is overwritten, that block grows by the entry -/
+theorem layout_extend_block (c : Cfg) (hm : 0 < c.metaSz) (cells : List Cell) (pre post : List LBlock) (b : LBlock) (p : Pay)
+    (hl : LayBlocks c cells 0 (pre ++ b :: post)) (hs : NoStray c cells (pre ++ b :: post))
+    (hfit : totalRaw c b.es + (c.metaSz + p.len) ≤ c.blockSize) :
+    let o := b.off + totalRaw c b.es
+    let b' : LBlock := { b with rest := b.rest ++ [p] }
+    clobber c cells o (o + c.metaSz + p.len) = cells ∧
+    LayBlocks c (cells ++ [⟨o, b.topic, p⟩]) 0 (pre ++ b' :: post) ∧
+    NoStray c (cells ++ [⟨o, b.topic, p⟩]) (pre ++ b' :: post) := by
+  intro o b'
+  rw [layBlocks_append] at hl
+  obtain ⟨hpre, hrest⟩ := hl
+  simp only [Nat.zero_add, LayBlocks] at hrest
+  obtain ⟨hboff, hblaid, hbtot, hpost⟩ := hrest
+  have hpreoff := layBlocks_off c cells pre 0 hpre
+  have hpostoff := layBlocks_off c cells post _ hpost
+  -- where the cells are, relative to the new entry
+  have hwhere : ∀ y ∈ cells, y.off + c.metaSz + y.pay.len ≤ o ∨ o + c.metaSz + p.len ≤ y.off := by
+    intro y hy
+    obtain ⟨b2, hb2, h1, h2⟩ := hs y hy
+    rw [List.mem_append, List.mem_cons] at hb2
+    rcases hb2 with hb2 | hb2 | hb2
+    · have := hpreoff b2 hb2; left; omega
+    · subst hb2; left; exact h2
+    · have := hpostoff b2 hb2; right; omega
+  have hnone : cellAt cells o = none := by
+    cases hc : cellAt cells o with
+    | none => rfl
+    | some y =>
+      obtain ⟨hy, ho⟩ := mem_of_cellAt _ _ _ hc
+      rcases hwhere y hy with h | h <;> omega
+  have hes : b'.es = b.es ++ [p] := rfl
+  refine ⟨?_, ?_, ?_⟩
+  · apply clobber_eq_self
+    intro y hy ⟨h1, h2⟩
+    unfold Cell.stop at h2
+    rcases hwhere y hy with h | h <;> omega
+  · rw [layBlocks_append]
+    refine ⟨layBlocks_mono c cells _ pre 0 hpre, ?_⟩
+    simp only [Nat.zero_add, LayBlocks]
+    refine ⟨hboff, ?_, ?_, layBlocks_mono c cells _ post _ hpost⟩
+    · rw [hes]
+      have ho : o = pre.length * c.blockSize + totalRaw c b.es := by simp only [o, hboff]
+      apply laidT_snoc
+      · exact laidT_mono c cells _ _ _ _ hblaid
+      · rw [← ho, cellAt_append_none _ _ _ hnone]; simp [b']
+    · have h1 : totalRaw c [p] = c.metaSz + p.len := by simp [totalRaw]
+      rw [hes, totalRaw_append, h1]; omega
+  · intro y hy
+    rw [List.mem_append] at hy
+    rcases hy with hy | hy
+    · obtain ⟨b2, hb2, h1, h2⟩ := hs y hy
+      rw [List.mem_append, List.mem_cons] at hb2
+      rcases hb2 with hb2 | hb2 | hb2
+      · exact ⟨b2, List.mem_append_left _ hb2, h1, h2⟩
+      · subst hb2
+        refine ⟨b', List.mem_append_right _ List.mem_cons_self, h1, ?_⟩
+        rw [hes, totalRaw_append]; show _ ≤ b2.off + _; omega
+      · exact ⟨b2, List.mem_append_right _ (List.mem_cons_of_mem _ hb2), h1, h2⟩
+    · simp only [List.mem_singleton] at hy
+      subst hy
+      refine ⟨b', List.mem_append_right _ List.mem_cons_self, by show b.off ≤ o; omega, ?_⟩
+      have h1 : totalRaw c [p] = c.metaSz + p.len := by simp [totalRaw]
+      rw [hes, totalRaw_append, h1]
+      show o + c.metaSz + p.len ≤ b.off + (totalRaw c b.es + (c.metaSz + p.len))
+      omega
+
+theorem layBlocks_disjoint (c : Cfg) (cells : List Cell) (L : List LBlock) :
+    ∀ o, LayBlocks c cells o L → ∀ b ∈ L, ∀ b2 ∈ L,
+      (b.off = b2.off ∧ totalRaw c b.es = totalRaw c b2.es ∧ b.topic = b2.topic) ∨
+        b.off + c.blockSize ≤ b2.off ∨ b2.off + c.blockSize ≤ b.off := by
+  induction L with
+  | nil => intro o _ b hb; simp at hb
+  | cons a r ih =>
+    intro o h b hb b2 hb2
+    have hr := layBlocks_off c cells r _ h.2.2.2
+    rw [List.mem_cons] at hb hb2
+    rcases hb with e | hb <;> rcases hb2 with e2 | hb2
+    · subst e; subst e2; exact Or.inl ⟨rfl, rfl, rfl⟩
+    · subst e; have := hr b2 hb2; right; left; rw [h.1]; omega
+    · subst e2; have := hr b hb; right; right; rw [h.1]; omega
+    · exact ih _ h.2.2.2 b hb b2 hb2
+
+/-- the writer of every topic sits on the last block of that topic, at the end of its entries -/
+def WritersOk (c : Cfg) (i : Inst) (f : Nat) (L : List LBlock) : Prop :=
+  ∀ t, match i.writers.get? t with
+    | none => ∀ b ∈ L, b.topic ≠ t
+    | some w => w.batching = false ∧ w.blk.limit = c.blockSize ∧ w.blk.file = f ∧
+        ∃ b ∈ L, b.topic = t ∧ w.blk.off = b.off ∧ w.off = totalRaw c b.es ∧ ∀ x ∈ L, x.topic = t → x.off ≤ b.off
+
+/-- the state of the current WAL file and of the writers, described by the layout `L` -/
+structure DiskInv (c : Cfg) (p : Proc) (i : Inst) (f : Nat) (L : List LBlock) : Prop where
+  file : i.allocFile = f
+  inrange : f < p.files.length
+  alloc : i.allocOff = L.length * c.blockSize
+  lay : LayBlocks c (fileCells p.files f) 0 L
+  stray : NoStray c (fileCells p.files f) L
+  writers : WritersOk c i f L
+
+/-- the entries of topic `t` in layout order -/
+def entriesOf (t : Topic) (L : List LBlock) : List Pay := (L.filter (fun b => b.topic = t)).flatMap LBlock.es
+
+theorem entriesOf_append (t : Topic) (A B : List LBlock) : entriesOf t (A ++ B) = entriesOf t A ++ entriesOf t B := by
+  simp [entriesOf, List.filter_append, List.flatMap_append]
+
+theorem entriesOf_none (t : Topic) (A : List LBlock) (h : ∀ x ∈ A, x.topic ≠ t) : entriesOf t A = [] := by
+  unfold entriesOf
+  rw [List.filter_eq_nil_iff.mpr (by intro x hx; simpa using h x hx)]
+  rfl
+
+theorem writeCell_length (c : Cfg) (files : List FileSt) (b : Blk) (inOff : Nat) (t : Topic) (pay : Pay) :
+    (writeCell c files b inOff t pay).length = files.length := by
+  unfold writeCell updFileCells; simp
+
+theorem entriesOf_single (t' : Topic) (b : LBlock) :
+    entriesOf t' [b] = if b.topic = t' then b.es else [] := by
+  unfold entriesOf
+  by_cases h : b.topic = t' <;> simp [h]
+
+/-- **One friendly append keeps the disk well-formed** and adds exactly its entry to its topic's entries. -/
+theorem diskInv_append (c : Cfg) (hc : CfgOK c) (p : Proc) (i : Inst) (f : Nat) (L : List LBlock) (t : Topic) (pay : Pay)
+    (h : DiskInv c p i f L) (hlong : t.long = false) (hfit : c.metaSz + pay.len ≤ c.blockSize)
+    (hroom : (L.length + 1) * c.blockSize ≤ c.fileSize) :
+    (appendForTopic c p i t pay).2.2 = .ok ∧
+    ∃ L', DiskInv c (appendForTopic c p i t pay).1 (appendForTopic c p i t pay).2.1 f L' ∧ L'.length ≤ L.length + 1 ∧
+      entriesOf t L' = entriesOf t L ++ [pay] ∧ ∀ t', t' ≠ t → entriesOf t' L' = entriesOf t' L := by
+  have hroom' : i.allocOff + c.blockSize ≤ c.fileSize := by rw [h.alloc]; rw [Nat.succ_mul] at hroom; exact hroom
+  have hwt := h.writers t
+  obtain ⟨hok, hfile, hcases⟩ := append_friendly c p i t pay hc.meta_pos hc.bs_pos hc.bs_le hlong hfit hroom'
+    (by intro w hw; rw [hw] at hwt; exact ⟨hwt.1, hwt.2.1⟩)
+  refine ⟨hok, ?_⟩
+  generalize appendForTopic c p i t pay = r at hfile hcases ⊢
+  obtain ⟨p', i', out⟩ := r
+  simp only at hfile hcases ⊢
+  rcases hcases with ⟨hwhy, hfiles, halloc, hwr⟩ | ⟨w, hw, hwfit, hfiles, halloc, hwr⟩
+  · -- a new block
+    have hnb : nextBlk c i = { id := i.allocId, file := f, off := L.length * c.blockSize, limit := c.blockSize, used := 0 } := by
+      unfold nextBlk; rw [h.file, h.alloc]
+    obtain ⟨hclob, hlay, hstray⟩ := layout_new_block c hc.meta_pos (fileCells p.files f) L t pay h.lay h.stray hfit
+    have hcells : fileCells p'.files f = fileCells p.files f ++ [⟨L.length * c.blockSize, t, pay⟩] := by
+      rw [hfiles, fileCells_writeCell, hnb]
+      simp only [true_and, h.inrange, if_true, Nat.add_zero]
+      rw [hclob]
+    refine ⟨L ++ [⟨L.length * c.blockSize, t, pay, []⟩], ⟨hfile.trans h.file, ?_, ?_, ?_, ?_, ?_⟩, by simp, ?_, ?_⟩
+    · rw [hfiles, writeCell_length]; exact h.inrange
+    · rw [halloc, h.alloc, List.length_append, List.length_singleton, Nat.succ_mul]
+    · rw [hcells]; exact hlay
+    · rw [hcells]; exact hstray
+    · intro t'
+      rw [hwr t']
+      by_cases ht : t = t'
+      · subst ht
+        simp only [if_true]
+        refine ⟨trivial, by rw [hnb], by rw [hnb], ⟨_, List.mem_append_right _ (List.mem_singleton.mpr rfl), rfl, by rw [hnb], by simp [totalRaw, LBlock.es], ?_⟩⟩
+        intro x hx _
+        rw [List.mem_append] at hx
+        rcases hx with hx | hx
+        · have := layBlocks_off c _ L 0 h.lay x hx
+          show x.off ≤ L.length * c.blockSize
+          omega
+        · simp only [List.mem_singleton] at hx; subst hx; exact Nat.le_refl _
+      · simp only [ht, if_false]
+        have := h.writers t'
+        cases hg : i.writers.get? t' with
+        | none =>
+          rw [hg] at this
+          simp only
+          intro b hb
+          rw [List.mem_append] at hb
+          rcases hb with hb | hb
+          · exact this b hb
+          · simp only [List.mem_singleton] at hb; subst hb; exact ht
+        | some w2 =>
+          rw [hg] at this
+          simp only at this ⊢
+          obtain ⟨h1, h2, h3, b2, hb2, h4, h5, h6, h7⟩ := this
+          refine ⟨h1, h2, h3, b2, List.mem_append_left _ hb2, h4, h5, h6, ?_⟩
+          intro x hx hxt
+          rw [List.mem_append] at hx
+          rcases hx with hx | hx
+          · exact h7 x hx hxt
+          · simp only [List.mem_singleton] at hx; subst hx; exact absurd hxt ht
+    · rw [entriesOf_append, entriesOf_single]; simp [LBlock.es]
+    · intro t' ht
+      rw [entriesOf_append, entriesOf_single]
+      have : ¬ (t = t') := fun e => ht e.symm
+      simp [this]
+  · -- the entry goes behind the entries of the writer's block
+    rw [hw] at hwt
+    obtain ⟨hwb, hwl, hwf, b, hb, hbt, hboff, hbtot, hblast⟩ := hwt
+    obtain ⟨pre, post, hL⟩ := List.append_of_mem hb
+    subst hL
+    have hfit' : totalRaw c b.es + (c.metaSz + pay.len) ≤ c.blockSize := by rw [← hbtot, ← hwl]; exact hwfit
+    obtain ⟨hclob, hlay, hstray⟩ := layout_extend_block c hc.meta_pos (fileCells p.files f) pre post b pay h.lay h.stray hfit'
+    have hcells : fileCells p'.files f = fileCells p.files f ++ [⟨b.off + totalRaw c b.es, b.topic, pay⟩] := by
+      rw [hfiles, fileCells_writeCell, hwf, hboff, hbtot, hbt]
+      simp only [true_and, h.inrange, if_true]
+      rw [hclob]
+    -- blocks behind `b` belong to other topics
+    have hpostoff : ∀ x ∈ post, b.off + c.blockSize ≤ x.off := by
+      have hl := h.lay
+      rw [layBlocks_append] at hl
+      simp only [Nat.zero_add, LayBlocks] at hl
+      intro x hx
+      have := layBlocks_off c _ post _ hl.2.2.2.2 x hx
+      rw [hl.2.1]; exact this.1
+    have hpostt : ∀ x ∈ post, x.topic ≠ t := by
+      intro x hx hxt
+      have h1 := hblast x (List.mem_append_right _ (List.mem_cons_of_mem _ hx)) hxt
+      have h2 := hpostoff x hx
+      have := hc.bs_pos
+      omega
+    refine ⟨pre ++ { b with rest := b.rest ++ [pay] } :: post, ⟨hfile.trans h.file, ?_, ?_, ?_, ?_, ?_⟩, by simp, ?_, ?_⟩
+    · rw [hfiles, writeCell_length]; exact h.inrange
+    · rw [halloc, h.alloc]; simp
+    · rw [hcells]; exact hlay
+    · rw [hcells]; exact hstray
+    · intro t'
+      rw [hwr t']
+      by_cases ht : t = t'
+      · subst ht
+        simp only [if_true]
+        refine ⟨hwb, hwl, hwf, ⟨{ b with rest := b.rest ++ [pay] }, List.mem_append_right _ List.mem_cons_self, hbt, hboff, ?_, ?_⟩⟩
+        · show w.off + (c.metaSz + pay.len) = totalRaw c (b.es ++ [pay])
+          rw [totalRaw_append, hbtot]; simp [totalRaw]
+        · intro x hx hxt
+          rw [List.mem_append, List.mem_cons] at hx
+          rcases hx with hx | hx | hx
+          · exact hblast x (List.mem_append_left _ hx) hxt
+          · subst hx; exact Nat.le_refl _
+          · exact hblast x (List.mem_append_right _ (List.mem_cons_of_mem _ hx)) hxt
+      · simp only [ht, if_false]
+        have := h.writers t'
+        cases hg : i.writers.get? t' with
+        | none =>
+          rw [hg] at this
+          simp only at this ⊢
+          intro x hx
+          rw [List.mem_append, List.mem_cons] at hx
+          rcases hx with hx | hx | hx
+          · exact this x (List.mem_append_left _ hx)
+          · subst hx; show b.topic ≠ t'; rw [hbt]; exact ht
+          · exact this x (List.mem_append_right _ (List.mem_cons_of_mem _ hx))
+        | some w2 =>
+          rw [hg] at this
+          simp only at this ⊢
+          obtain ⟨h1, h2, h3, b2, hb2, h4, h5, h6, h7⟩ := this
+          have hb2' : b2 ∈ pre ++ { b with rest := b.rest ++ [pay] } :: post := by
+            rw [List.mem_append, List.mem_cons] at hb2 ⊢
+            rcases hb2 with hb2 | hb2 | hb2
+            · exact Or.inl hb2
+            · exfalso; subst hb2; rw [hbt] at h4; exact ht h4
+            · exact Or.inr (Or.inr hb2)
+          refine ⟨h1, h2, h3, b2, hb2', h4, h5, h6, ?_⟩
+          intro x hx hxt
+          rw [List.mem_append, List.mem_cons] at hx
+          rcases hx with hx | hx | hx
+          · exact h7 x (List.mem_append_left _ hx) hxt
+          · subst hx; exfalso; have : b.topic = t' := hxt; rw [hbt] at this; exact ht this
+          · exact h7 x (List.mem_append_right _ (List.mem_cons_of_mem _ hx)) hxt
+    · rw [entriesOf_append, entriesOf_append]
+      rw [show ({ b with rest := b.rest ++ [pay] } :: post : List LBlock) = [{ b with rest := b.rest ++ [pay] }] ++ post from rfl,
+        show (b :: post : List LBlock) = [b] ++ post from rfl, entriesOf_append, entriesOf_append,
+        entriesOf_none t post hpostt, entriesOf_single, entriesOf_single]
+      simp only [hbt, if_true, List.append_nil]
+      show entriesOf t pre ++ (b.es ++ [pay]) = entriesOf t pre ++ b.es ++ [pay]
+      rw [List.append_assoc]
+    · intro t' ht
+      have hne : ¬ (b.topic = t') := by rw [hbt]; exact fun e => ht e.symm
+      rw [entriesOf_append, entriesOf_append]
+      rw [show ({ b with rest := b.rest ++ [pay] } :: post : List LBlock) = [{ b with rest := b.rest ++ [pay] }] ++ post from rfl,
+        show (b :: post : List LBlock) = [b] ++ post from rfl, entriesOf_append, entriesOf_append,
+        entriesOf_single, entriesOf_single]
+      simp only [hne, if_false]
+
+theorem blockLimitOf_unit (c : Cfg) (x : Cell) (h0 : 0 < c.metaSz) (hb0 : 0 < c.blockSize) (h : c.metaSz + x.pay.len ≤ c.blockSize) :
+    blockLimitOf c x = c.blockSize := by
+  unfold blockLimitOf
+  have hu : (c.metaSz + x.pay.len + c.blockSize - 1) / c.blockSize = 1 := by
+    apply Nat.div_eq_of_lt_le <;> omega
+  rw [hu]; simp
+
+theorem first_le_total (c : Cfg) (b : LBlock) : c.metaSz + b.first.len ≤ totalRaw c b.es := by
+  simp [totalRaw, LBlock.es]
+
+/-- a layout as friendly appends produce it is a well-formed file for the recovery scan -/
+theorem fileLaid_of_layout (c : Cfg) (h0 : 0 < c.metaSz) (hb0 : 0 < c.blockSize) (cells : List Cell) (rest : List LBlock) :
+    ∀ pre, LayBlocks c cells 0 (pre ++ rest) → NoStray c cells (pre ++ rest) →
+      (pre.length + rest.length) * c.blockSize ≤ c.fileSize →
+      FileLaid c cells (pre.length * c.blockSize) rest := by
+  induction rest with
+  | nil =>
+    intro pre hl hs _ _
+    simp only [List.append_nil] at hl hs
+    have hbelow : ∀ y ∈ cells, y.off + c.metaSz + y.pay.len ≤ pre.length * c.blockSize := by
+      intro y hy
+      obtain ⟨b, hb, _, h2⟩ := hs y hy
+      have := layBlocks_off c cells pre 0 hl b hb
+      omega
+    unfold unitKind
+    have hnone : cellAt cells (pre.length * c.blockSize) = none := by
+      cases hc : cellAt cells (pre.length * c.blockSize) with
+      | none => rfl
+      | some y =>
+        obtain ⟨hy, ho⟩ := mem_of_cellAt _ _ _ hc
+        have := hbelow y hy
+        omega
+    rw [hnone]
+    simp only
+    have : cells.find? (fun x => decide (x.off < pre.length * c.blockSize) && decide (pre.length * c.blockSize < x.stop c)) = none := by
+      rw [List.find?_eq_none]
+      intro y hy
+      have := hbelow y hy
+      unfold Cell.stop
+      simp only [Bool.and_eq_true, decide_eq_true_eq, not_and, Nat.not_lt]
+      intro _; omega
+    rw [this]
+  | cons b r ih =>
+    intro pre hl hs hroom
+    have hl' := hl
+    rw [layBlocks_append] at hl'
+    simp only [Nat.zero_add, LayBlocks] at hl'
+    obtain ⟨_, hboff, hblaid, hbtot, _⟩ := hl'
+    have hfirst := first_le_total c b
+    have hlim : b.lim c = c.blockSize := blockLimitOf_unit c _ h0 hb0 (by show c.metaSz + b.first.len ≤ _; omega)
+    have hcount : (pre.length + (r.length + 1)) * c.blockSize ≤ c.fileSize := by simpa using hroom
+    have hpos : pre.length * c.blockSize + c.blockSize ≤ c.fileSize := by
+      have : (pre.length + 1) * c.blockSize ≤ (pre.length + (r.length + 1)) * c.blockSize :=
+        Nat.mul_le_mul_right _ (by omega)
+      rw [Nat.succ_mul] at this; omega
+    refine ⟨hboff, hpos, by rw [hlim]; omega, ⟨_, hblaid.1, rfl, rfl⟩, laidT_laid c cells _ _ _ hblaid,
+      by rw [hlim]; exact hbtot, ?_, ?_⟩
+    · by_cases hfull : totalRaw c b.es + c.metaSz > c.blockSize
+      · right; rw [hlim]; exact hfull
+      · left
+        cases hc : cellAt cells (pre.length * c.blockSize + totalRaw c b.es) with
+        | none => rfl
+        | some y =>
+          exfalso
+          obtain ⟨hy, ho⟩ := mem_of_cellAt _ _ _ hc
+          obtain ⟨b2, hb2, h1, h2⟩ := hs y hy
+          have hb : b ∈ pre ++ b :: r := List.mem_append_right _ List.mem_cons_self
+          have ht2 := (layBlocks_off c cells _ 0 hl b2 hb2).2.2
+          have hyoff : y.off = b.off + totalRaw c b.es := by rw [ho, hboff]
+          have hlt : totalRaw c b.es + c.metaSz ≤ c.blockSize := Nat.le_of_not_gt hfull
+          rcases layBlocks_disjoint c cells _ 0 hl b hb b2 hb2 with ⟨e1, e2, _⟩ | hd | hd
+          · rw [← e1, ← e2] at h2; omega
+          · omega
+          · omega
+    · rw [hlim]
+      have := ih (pre ++ [b]) (by simpa using hl) (by simpa using hs)
+        (by rw [List.length_append, List.length_singleton,
+              show pre.length + 1 + r.length = pre.length + (r.length + 1) by omega]; exact hcount)
+      simpa [Nat.succ_mul] using this
+
+/-- a sequence of single-entry appends -/
+def appendAll (c : Cfg) : Proc → Inst → List (Topic × Pay) → Proc × Inst
+  | p, i, [] => (p, i)
+  | p, i, (t, pay) :: r => appendAll c (appendForTopic c p i t pay).1 (appendForTopic c p i t pay).2.1 r
+
+/-- ordinary topic names, entries that fit one unit -/
+def Friendly (c : Cfg) (ops : List (Topic × Pay)) : Prop :=
+  ∀ x ∈ ops, x.1.long = false ∧ c.metaSz + x.2.len ≤ c.blockSize
+
+theorem diskInv_appendAll (c : Cfg) (hc : CfgOK c) (f : Nat) (ops : List (Topic × Pay)) :
+    ∀ (p : Proc) (i : Inst) (L : List LBlock), DiskInv c p i f L → Friendly c ops →
+      (L.length + ops.length) * c.blockSize ≤ c.fileSize →
+      ∃ L', DiskInv c (appendAll c p i ops).1 (appendAll c p i ops).2 f L' ∧ L'.length ≤ L.length + ops.length ∧
+        ∀ t, entriesOf t L' = entriesOf t L ++ (ops.filter (fun x => x.1 = t)).map (·.2) := by
+  induction ops with
+  | nil => intro p i L h _ _; exact ⟨L, h, by simp, by simp⟩
+  | cons op r ih =>
+    intro p i L h hf hroom
+    obtain ⟨t, pay⟩ := op
+    have hfo := hf (t, pay) List.mem_cons_self
+    have hroom1 : (L.length + 1) * c.blockSize ≤ c.fileSize :=
+      Nat.le_trans (Nat.mul_le_mul_right _ (by simp)) hroom
+    obtain ⟨_, L1, h1, hlen1, hent, hoth⟩ := diskInv_append c hc p i f L t pay h hfo.1 hfo.2 hroom1
+    have hroom2 : (L1.length + r.length) * c.blockSize ≤ c.fileSize :=
+      Nat.le_trans (Nat.mul_le_mul_right _ (by simp only [List.length_cons] at *; omega)) hroom
+    obtain ⟨L2, h2, hlen2, hent2⟩ := ih _ _ L1 h1 (fun x hx => hf x (List.mem_cons_of_mem _ hx)) hroom2
+    refine ⟨L2, h2, by simp only [List.length_cons]; omega, ?_⟩
+    intro t0
+    rw [hent2 t0]
+    by_cases e : t = t0
+    · subst e
+      rw [hent]
+      simp [List.filter_cons]
+    · rw [hoth t0 (fun x => e x.symm)]
+      simp [List.filter_cons, e]
+
+/-- **Friendly appends are recovered (storage-level model, one file).**  Start from an instance on a fresh WAL file,
+perform any sequence of single-entry appends to any topics (ordinary names, entries of at most one unit, as many as
+the file has units for), and let `startup_chore` scan the file: there is a layout `L` whose blocks hold, topic by
+topic and in order, exactly the appended entries, and the scan registers exactly the blocks of `L` - in file order,
+with consecutive ids, `used` = the extent of their entries, their entry counts - and nothing else.  No acknowledged
+entry of such a history is missing from what recovery rebuilds, and nothing is recovered that was not appended. -/
+theorem C06_friendly_appends_are_recovered (c : Cfg) (hc : CfgOK c) (p : Proc) (i : Inst) (f : Nat)
+    (hinit : DiskInv c p i f []) (ops : List (Topic × Pay)) (hf : Friendly c ops)
+    (hroom : ops.length * c.blockSize ≤ c.fileSize) (s : ScanSt) :
+    ∃ L : List LBlock, (∀ t, entriesOf t L = (ops.filter (fun x => x.1 = t)).map (·.2)) ∧
+      ∀ fuel, L.length < fuel →
+        scanFile c f (fileCells (appendAll c p i ops).1.files f) fuel 0 s = L.foldl (blockStep c f) s := by
+  obtain ⟨L, hL, hlen, hent⟩ := diskInv_appendAll c hc f ops p i [] hinit hf (by simpa using hroom)
+  refine ⟨L, by intro t; rw [hent t]; simp [entriesOf], ?_⟩
+  intro fuel hfuel
+  have hlaid := fileLaid_of_layout c hc.meta_pos hc.bs_pos _ L [] (by simpa using hL.lay) (by simpa using hL.stray)
+    (by
+      simp only [List.length_nil, Nat.zero_add]
+      exact Nat.le_trans (Nat.mul_le_mul_right _ (by simpa using hlen)) hroom)
+  exact C06_scan_recovers_laid_file c hc.meta_pos f _ L 0 fuel s (by simpa using hlaid) hfuel
+
+/-- the starting point exists: an instance whose allocator stands at the beginning of an empty file -/
+example : DiskInv smallCfg { files := [{ dir := 0, name := 1, cells := [], present := true }] } {} 0 [] :=
+  ⟨rfl, by decide, rfl, trivial, by intro x hx; simp [fileCells] at hx, by intro t; simp [AMap.get?, AMap.empty]⟩
+
+/-- four appends to two topics on the fresh file (the third and fourth do not fit the topic's current block): the scan
+finds three one-entry blocks of topic 0 and one of topic 1 -/
+example : (scanFile smallCfg 0
+      (fileCells (appendAll smallCfg { files := [{ dir := 0, name := 1, cells := [], present := true }] } {}
+        [(⟨0, false⟩, ⟨100, 1⟩), (⟨1, false⟩, ⟨200, 2⟩), (⟨0, false⟩, ⟨3700, 3⟩), (⟨0, false⟩, ⟨50, 4⟩)]).1.files 0)
+      5 0 { trk := {}, inst := { dir := 0, mode := .strict } }).perTopic =
+    [(⟨0, false⟩, [1, 1, 1]), (⟨1, false⟩, [1])] := by decide +kernel
 
 /-- three entries laid out from the start of a block, a stale cell further on: the walk returns the three -/
 example : walkBlock smallCfg
